@@ -216,6 +216,33 @@ func ownCases() (out []mcase) {
 			return &client.ChannelUpdateAccMsg{ChannelID: mFixedID(0x7c), Version: 0, Sig: garbageSig()}
 		})
 	}
+	// a stray version-1 update of an unknown channel while the victim's own opening is in flight (the
+	// client caches such updates during openings and replays them when the opening ends)
+	strayEnv := func(sc *mScene, from mIdent) *wire.Envelope {
+		st := &channel.State{ID: mFixedID(0x7d), Version: 1, App: channel.NoApp(), Data: channel.NoData(), Allocation: *mAlloc(sc.w.Asset, 1, 1)}
+		return &wire.Envelope{Sender: from.Wire, Recipient: sc.V.WireID,
+			Msg: &client.ChannelUpdateMsg{ChannelUpdate: client.ChannelUpdate{State: st, ActorIdx: 0}, Sig: garbageSig()}}
+	}
+	for _, kind := range []string{"ledger", "sub", "virtual"} {
+		kind := kind
+		for _, from := range []string{"stranger", "peer"} {
+			from := from
+			who := func(sc *mScene) mIdent {
+				if from == "stranger" {
+					return sc.S
+				}
+				return partyIdent(sc.M)
+			}
+			if kind != "virtual" {
+				out = append(out, mcase{Name: "own-" + kind + "/honest-stray-v1-from-" + from, Cat: "own", Sender: "M", Mut: true, Own: kind, OwnHonest: true, Pts: ownPoints[kind],
+					Build: func(*mScene) wire.Msg { return nil }, Envs: func(sc *mScene) []*wire.Envelope { return []*wire.Envelope{strayEnv(sc, who(sc))} }})
+			}
+			out = append(out, mcase{Name: "own-" + kind + "/stray-v1-from-" + from + "-then-rej", Cat: "own", Sender: "M", Mut: true, Own: kind, Pts: ownPoints[kind],
+				Build: func(*mScene) wire.Msg { return nil }, Envs: func(sc *mScene) []*wire.Envelope {
+					return []*wire.Envelope{strayEnv(sc, who(sc)), {Sender: sc.M.WireID, Recipient: sc.V.WireID, Msg: &client.ChannelProposalRejMsg{ProposalID: ownPID, Reason: "no"}}}
+				}})
+		}
+	}
 	// responses to the victim's own update
 	req := func(sc *mScene) *client.ChannelUpdateMsg {
 		if m, ok := sc.ownReq.(*client.ChannelUpdateMsg); ok {
@@ -442,13 +469,23 @@ func (sc *mScene) signAs(acc wallet.Account, st *channel.State) wallet.Sig {
 	return s
 }
 
+// hubPairInit is the honest initial state of the colluding ends' virtual channel: 3:2 (and 1:1 of the
+// second asset when the hub's channels are over two assets).
+func (sc *mScene) hubPairInit() *channel.State {
+	al := mAlloc(sc.w.Asset, 3, 2)
+	if sc.two {
+		al = mAlloc2([]int64{3, 2}, []int64{1, 1})
+	}
+	return &channel.State{ID: sc.hubPairParams().ID(), Version: 0, App: channel.NoApp(), Data: channel.NoData(), Allocation: *al}
+}
+
 // hubPairEnvs builds the two funding proposals (M's on the channel M - hub, B's on the channel B - hub).
 func (sc *mScene) hubPairEnvs(mut func(init *channel.State), sigs func(init *channel.State) []wallet.Sig) []*wire.Envelope {
 	if sc.B == nil || sc.led == nil || sc.ledB == nil {
 		return nil
 	}
 	params := sc.hubPairParams()
-	init := &channel.State{ID: params.ID(), Version: 0, App: channel.NoApp(), Data: channel.NoData(), Allocation: *mAlloc(sc.w.Asset, 3, 2)}
+	init := sc.hubPairInit()
 	if mut != nil {
 		mut(init)
 	}
@@ -462,8 +499,10 @@ func (sc *mScene) hubPairEnvs(mut func(init *channel.State), sigs func(init *cha
 		st := sc.signed(led)
 		st.Version++
 		debit := mapBals(init.Balances, im, 2)
-		for p := range st.Balances[0] {
-			st.Balances[0][p].Sub(st.Balances[0][p], debit[0][p])
+		for a := range st.Balances {
+			for p := range st.Balances[a] {
+				st.Balances[a][p].Sub(st.Balances[a][p], debit[a][p])
+			}
 		}
 		st.Locked = append(st.Locked, *channel.NewSubAlloc(params.ID(), init.Balances.Sum(), im))
 		upd := &client.ChannelUpdateMsg{ChannelUpdate: client.ChannelUpdate{State: st, ActorIdx: 0}, Sig: sc.signAs(who.Acc, st)}
@@ -486,7 +525,7 @@ func (sc *mScene) hubPairProbe(from mIdent) []*wire.Envelope {
 
 func hubPairCases() (out []mcase) {
 	add := func(name string, mut bool, envs func(sc *mScene) []*wire.Envelope) {
-		out = append(out, mcase{Name: "hubpair/" + name, Cat: "hubpair", Sender: "M", Mut: mut, Pts: []string{"hub-collude"}, Envs: envs,
+		out = append(out, mcase{Name: "hubpair/" + name, Cat: "hubpair", Sender: "M", Mut: mut, Pts: []string{"hub-collude", "hub2-collude"}, Envs: envs,
 			Build: func(*mScene) wire.Msg { return nil }})
 	}
 	add("valid", false, func(sc *mScene) []*wire.Envelope { return sc.hubPairEnvs(nil, nil) })
@@ -537,6 +576,225 @@ func hubPairCases() (out []mcase) {
 	add("update-virtual-id-from-peer", true, func(sc *mScene) []*wire.Envelope { return sc.hubPairProbe(partyIdent(sc.M)) })
 	add("update-virtual-id-from-stranger", true, func(sc *mScene) []*wire.Envelope { return sc.hubPairProbe(sc.S) })
 	return out
+}
+
+// ---------------------------------------------------------------- a stray version-1 update while the victim is the proposee of an opening
+
+// openingRun: the real M opens a channel of the given kind with the victim (whose handler accepts);
+// every publication takes 5 ms, and as soon as the victim has seen the proposal a version-1 update of
+// an unknown channel arrives from the stranger resp. from M. what = "<kind>/<stranger|peer>".
+func (sc *mScene) openingRun(what string) string {
+	kind, from, _ := strings.Cut(what, "/")
+	V, M := sc.V, sc.M
+	V.OnProposal, V.OnUpdate = nil, nil
+	sc.w.Bus.Drop = func(*wire.Envelope) bool {
+		vsched.Sleep(5 * time.Millisecond)
+		return false
+	}
+	seen := len(V.ProposalsSeen)
+	res := ""
+	done := make(chan struct{}, 1)
+	vsched.GoNamed("m-opening", func() {
+		ctx, cancel := context.WithTimeout(context.Background(), 10*time.Second)
+		defer cancel()
+		var err error
+		switch kind {
+		case "ledger":
+			var p *client.LedgerChannelProposalMsg
+			if p, err = client.NewLedgerChannelProposal(60, M.Addr, mAlloc(sc.w.Asset, 5, 5),
+				[]map[wallet.BackendID]wire.Address{M.WireID, V.WireID}, M.nextNonce()); err == nil {
+				p.ProposalID = mFixedID(0xEA)
+				_, err = M.C.ProposeChannel(ctx, p)
+			}
+		case "sub":
+			var p *client.SubChannelProposalMsg
+			if p, err = client.NewSubChannelProposal(sc.mled.ID(), 60, mAlloc(sc.w.Asset, 1, 1), M.nextNonce()); err == nil {
+				p.ProposalID = mFixedID(0xEB)
+				_, err = M.C.ProposeChannel(ctx, p)
+			}
+		}
+		res = classify(err)
+		vsched.Send(done, struct{}{})
+	})
+	vsched.WaitCond("await-proposal-at-victim", func() bool { return len(V.ProposalsSeen) > seen })
+	who := sc.S
+	if from == "peer" {
+		who = partyIdent(M)
+	}
+	st := &channel.State{ID: mFixedID(0x7d), Version: 1, App: channel.NoApp(), Data: channel.NoData(), Allocation: *mAlloc(sc.w.Asset, 1, 1)}
+	env := &wire.Envelope{Sender: who.Wire, Recipient: V.WireID,
+		Msg: &client.ChannelUpdateMsg{ChannelUpdate: client.ChannelUpdate{State: st, ActorIdx: 0}, Sig: garbageSig()}}
+	if err := sc.w.Bus.Inject(env, false); err != nil {
+		panic("harness: inject: " + err.Error())
+	}
+	vsched.Recv(done)
+	if strings.HasPrefix(res, "err:") {
+		res = "error"
+	}
+	return "M's opening: " + res
+}
+
+// ---------------------------------------------------------------- the harness (as M) opens a sub-channel with the victim step by step
+
+// acceptSubLong is a proposal handler that accepts sub-channel proposals in another goroutine with
+// a long context (the victim then waits up to 30 s for the signature exchange and the funding).
+func (sc *mScene) acceptSubLong(p *Party, cp client.ChannelProposal, r *client.ProposalResponder) {
+	m, ok := cp.(*client.SubChannelProposalMsg)
+	if !ok {
+		p.acceptProposal(cp, r)
+		return
+	}
+	acc := m.Accept(p.nextNonce())
+	vsched.GoNamed("accept-sub-V", func() {
+		ctx, cancel := context.WithTimeout(context.Background(), 30*time.Second)
+		defer cancel()
+		if _, err := r.Accept(ctx, acc); err != nil {
+			sc.threadErrs = append(sc.threadErrs, "V accept sub-channel: "+err.Error())
+		}
+	})
+}
+
+// proposeSubAsM sends the victim a hand-written sub-channel proposal of its ledger channel in M's
+// name (initial balances and funding agreement set independently) and waits until the victim has
+// published its version-0 signature; returns the sub-channel's initial state (nil: the victim did
+// not get that far within 2 s).
+func (sc *mScene) proposeSubAsM(bals, fa []int64) *channel.State {
+	V := sc.V
+	p, err := client.NewSubChannelProposal(sc.led.ID(), 60, mAlloc(sc.w.Asset, bals...), client.WithNonce(mFixedID(0x65)))
+	if err != nil {
+		panic("harness: " + err.Error())
+	}
+	p.ProposalID = mFixedID(0xEC)
+	setSplit(p.Base(), bals, fa)
+	n0 := len(sc.w.Bus.Sent)
+	env := &wire.Envelope{Sender: sc.M.WireID, Recipient: V.WireID, Msg: p}
+	if dec, _, why := mPrepare(env, false); dec == nil {
+		panic("harness: sub-channel proposal not expressible: " + why)
+	}
+	if err := sc.w.Bus.Inject(env, false); err != nil {
+		panic("harness: inject: " + err.Error())
+	}
+	for i := 0; i < 200; i++ {
+		for _, r := range sc.w.Bus.Sent[n0:] {
+			if acc, ok := r.Msg.(*client.ChannelUpdateAccMsg); ok && r.From == V.Idx && acc.Version == 0 {
+				return &channel.State{ID: acc.ChannelID, Version: 0, App: channel.NoApp(), Data: channel.NoData(), Allocation: *mAlloc(sc.w.Asset, bals...)}
+			}
+		}
+		vsched.Sleep(10 * time.Millisecond)
+	}
+	return nil
+}
+
+// completeSubAsM sends M's version-0 signature of the sub-channel.
+func (sc *mScene) completeSubAsM(init *channel.State) {
+	env := &wire.Envelope{Sender: sc.M.WireID, Recipient: sc.V.WireID,
+		Msg: &client.ChannelUpdateAccMsg{ChannelID: init.ID, Version: 0, Sig: sc.sign("M", init)}}
+	if err := sc.w.Bus.Inject(env, false); err != nil {
+		panic("harness: inject: " + err.Error())
+	}
+}
+
+// subFunding: the parent update that funds the sub-channel `id` with the given debits (index 0 = M, 1 = victim).
+func (sc *mScene) subFunding(id channel.ID, locked int64, debit0, debit1 int64) *client.ChannelUpdateMsg {
+	st := sc.signed(sc.led)
+	st.Version++
+	st.Balances[0][0].Sub(st.Balances[0][0], mBig(debit0))
+	st.Balances[0][1].Sub(st.Balances[0][1], mBig(debit1))
+	st.Locked = append(st.Locked, *channel.NewSubAlloc(id, []channel.Bal{mBig(locked)}, nil))
+	return sc.finish(&updSpec{St: st, Actor: 0})
+}
+
+func (sc *mScene) dropVictim() {
+	w, V := sc.w, sc.V
+	w.Bus.Drop = func(e *wire.Envelope) bool { return w.partyOf(e.Sender) == V.Idx }
+}
+
+// ---- C07: funding agreement != balances (point open-v1: M is index 0, the victim index 1)
+
+var splitFundMembers = []string{"debit-bals", "debit-fa", "debit-fa-reversed", "debit-bals-relayed-by-stranger"}
+
+// splitFundRun: sub-channel proposal with balances 5:5 and funding agreement 0:10, accepted by the
+// victim, opening completed; then the named funding update of the parent.
+func (sc *mScene) splitFundRun(obs *msgsObs, member string) (crafts []mCrafted) {
+	sc.V.OnProposal, sc.V.OnUpdate = sc.acceptSubLong, nil
+	sc.dropVictim()
+	obs.Items = []mItemObs{{Name: "splitfund/" + member, Cat: "splitfund", Mut: member != "debit-bals" && member != "debit-bals-relayed-by-stranger"}}
+	it := &obs.Items[0]
+	init := sc.proposeSubAsM([]int64{5, 5}, []int64{0, 10})
+	if init == nil {
+		it.NotExpr = "the victim did not accept the sub-channel proposal"
+		return nil
+	}
+	sc.completeSubAsM(init)
+	vsched.Sleep(100 * time.Millisecond)
+	sc.pend = append(sc.pend, pendingAuto{Kind: "fund", ID: init.ID, Bals: init.Balances.Clone()})
+	var up *client.ChannelUpdateMsg
+	sender := sc.M.WireID
+	switch member {
+	case "debit-bals":
+		up = sc.subFunding(init.ID, 10, 5, 5)
+	case "debit-bals-relayed-by-stranger":
+		up, sender = sc.subFunding(init.ID, 10, 5, 5), sc.S.Wire
+	case "debit-fa":
+		up = sc.subFunding(init.ID, 10, 0, 10)
+	case "debit-fa-reversed":
+		up = sc.subFunding(init.ID, 10, 10, 0)
+	default:
+		panic("harness: unknown member " + member)
+	}
+	env := &wire.Envelope{Sender: sender, Recipient: sc.V.WireID, Msg: up}
+	dec, _, why := mPrepare(env, false)
+	if dec == nil {
+		it.NotExpr = why
+		return nil
+	}
+	it.IsUpdate = true
+	crafts = append(crafts, mCrafted{0, dec.Msg.(*client.ChannelUpdateMsg)})
+	if err := sc.w.Bus.Inject(env, false); err != nil {
+		panic("harness: inject: " + err.Error())
+	}
+	return crafts
+}
+
+// ---- C12: M never completes the opening, the funding update arrives later
+
+var halfOpenMembers = []string{"fund-matching", "fund-matching-relayed-by-stranger", "fund-other-amount", "nothing"}
+
+// halfOpenRun: M proposes a sub-channel (2:4), the victim accepts and publishes its version-0
+// signature, M never sends its own; 35 s later (the victim's Accept has failed after its 30 s) the
+// funding update of the parent that would have funded that sub-channel arrives.
+func (sc *mScene) halfOpenRun(obs *msgsObs, member string) {
+	sc.V.OnProposal, sc.V.OnUpdate = sc.acceptSubLong, nil
+	sc.dropVictim()
+	obs.Items = []mItemObs{{Name: "halfopen/" + member, Cat: "halfopen", Mut: true}}
+	it := &obs.Items[0]
+	init := sc.proposeSubAsM([]int64{2, 4}, []int64{2, 4})
+	if init == nil {
+		it.NotExpr = "the victim did not accept the sub-channel proposal"
+		return
+	}
+	vsched.Sleep(35 * time.Second)
+	var up *client.ChannelUpdateMsg
+	sender := sc.M.WireID
+	switch member {
+	case "fund-matching":
+		up = sc.subFunding(init.ID, 6, 2, 4)
+	case "fund-matching-relayed-by-stranger":
+		up, sender = sc.subFunding(init.ID, 6, 2, 4), sc.S.Wire
+	case "fund-other-amount":
+		up = sc.subFunding(init.ID, 4, 2, 2)
+	case "nothing":
+		it.NA = true
+		return
+	}
+	env := &wire.Envelope{Sender: sender, Recipient: sc.V.WireID, Msg: up}
+	if dec, _, why := mPrepare(env, false); dec == nil {
+		it.NotExpr = why
+		return
+	}
+	if err := sc.w.Bus.Inject(env, false); err != nil {
+		panic("harness: inject: " + err.Error())
+	}
 }
 
 var _ = persistence.NonPersistRestorer
